@@ -186,6 +186,10 @@ def lockstep(ctx, headers, cap, seed, fine=True):
             if depth > 40:
                 ctx.caps.append(f'lock-step BFS stopped at depth 40 for {headers}')
                 break
+            if depth >= 3 and ctx.unlisted('C02'):
+                # the verdict is decided; with a wrong tree the implementation fingerprints need not merge any more and the graph may be unbounded
+                ctx.caps.append(f'lock-step BFS for {headers} stopped after depth {depth}: violations already recorded')
+                break
     ctx.count('lockstep_states', nstates)
     ctx.extra.setdefault('lockstep', []).append({'headers': headers, 'column_cap': cap, 'fine_fingerprint': fine, 'merged_states': nstates, 'bfs_depth': depth})
     for k in seen:
